@@ -225,6 +225,20 @@ class Rig:
         if arrived != expect:
             probs.append({"kind": "delivered-vs-claimed", "where": where, "delivered": [NAMES[t] for t in arrived],
                           "client_reports": [NAMES.get(t, t) for t in sorted(claimed)]})
+        # messages ADDRESSED to this module are delivered under the same rule (the destination filter narrows who gets a message, it
+        # never replaces the subscription)
+        before2 = len(c._sock.rx)
+        for mt in (A, B, C, D):
+            self.pub.send(P.mkframe(mt, b"", timecode=self.tc, src_mod_id=21, dest_mod_id=c.module_id))
+        self.w.settle()
+        fr3, _r3, _p3 = P.parse_stream(bytes(c._sock.rx[before2:]), self.tc)
+        arrived2 = sorted(f.msg_type for f in fr3 if f.msg_type in (A, B, C, D) and f.src_mod_id == 21)
+        if arrived2 != expect:
+            probs.append({"kind": "addressed-delivered-vs-claimed", "where": where, "delivered": [NAMES[t] for t in arrived2],
+                          "client_reports": [NAMES.get(t, t) for t in sorted(claimed)]})
+        del c._sock.rx[before2:]
+        if self.twin is not None:
+            self.twin.drain()
         # what the manager publishes itself is delivered under the same rule: a report period elapses; the report reaches the
         # client exactly when it claims to be subscribed to everything (no type of the universe is TIMING_MESSAGE)
         before = len(c._sock.rx)
